@@ -36,6 +36,7 @@ func init() {
 	vHarnesses["H_C08_sort"] = H_C08_sort
 	vHarnesses["H_C08_rep"] = H_C08_rep
 	vHarnesses["H_C16_alias"] = H_C16_alias
+	vHarnesses["H_C16_partial"] = H_C16_partial
 	vHarnesses["H_C02_pair"] = H_C02_pair
 	vHarnesses["H_C02_rep"] = H_C02_rep
 	vHarnesses["H_C10_gen"] = H_C10_gen
@@ -77,6 +78,12 @@ func H_C03_gen2(inst int) {
 func H_C04_gen(inst int) {
 	i := newFull()
 	engine.VH_C04_gen(&i.VM, inst)
+}
+
+// H_C16_partial: member/2, select/3, append/3 on partial and proper lists against their defining clauses.
+func H_C16_partial(inst int) {
+	i := newFull()
+	engine.VH_C16_partial(&i.VM, inst)
 }
 
 // H_C16_alias: relational built-ins called with one variable in two argument positions.
